@@ -67,7 +67,7 @@ LEMMAS = [
     (r"VarInt::size$", r"^panic$", r"unreachable", "type invariant VarInt.0 <= 2^62-1: the else arm is dead", "varint-invariant"),
     # --- ids
     (r"(FrameKind|StreamKind)::is_id_exercise$|SettingId::is_exercise$", r"^Overflow\(Sub\)$", r"into_inner\(id\),33", None, None),
-    (r"QStreamId::into_stream_id$", r"^panic$", r"<< (2|[\w:]+) <= VarInt::MAX", "debug-only: QStreamId invariant q <= 2^60-1 so q<<2 <= 2^62-4", "debug-only"),
+    (r"QStreamId::into_stream_id$", r"^panic$", r"<< (2|[\w:]+) <= VarInt::MAX|## .*Shl\(VarInt::into_inner\(self\.0\),2\) > ", "debug-only: QStreamId invariant q <= 2^60-1 so q<<2 <= 2^62-4", "debug-only"),
     (r"QStreamId::into_session_id$|SessionId::from_session_stream_unchecked$", r"^panic$", r"is_bidirectional\(\) && stream_id.is_client_initiated\(\)", "debug-only: (q<<2)&3 == 0", "debug-only"),
     # --- frames / headers
     (r"Frame::new$", r"^panic$", r"payload.len\(\) <= VarInt::MAX", "payload.len() <= isize::MAX < 2^62 on 64-bit targets", None),
@@ -428,9 +428,10 @@ def sweep(ctx, rid, A, clo, sup, only=None):
             # lemma table
             fkey = o.key.split("|")[0]
             opstr = ",".join(canon(x) for x in o.ops)
+            hay2 = opstr + " ## " + " & ".join(obligations.atom_str(a) for a in o.atoms)   # (message / operands, then the guards of the path)
             hit = None
             for i, (frx, krx, orx, why, sid) in enumerate(LEMMAS):
-                if re.search(frx, fkey) and re.search(krx, o.kind) and re.search(orx, opstr):
+                if re.search(frx, fkey) and re.search(krx, o.kind) and (re.search(orx, opstr) or ("## " in orx and re.search(orx, hay2))):
                     hit = (i, why, sid)
                     break
             if hit and hit[1] is not None:
